@@ -242,6 +242,10 @@ class RSite:
                     state['n'] += 1
                     return Page(raw=b'', close=True) if state['n'] == 1 else good
                 pages['/robots.txt'] = flaky
+            elif r['kind'] == 'dropped-always':
+                # every request for the file ends in a network error (closed without a byte, or garbage instead of a
+                # header): the origin's URLs are postponed until their tries are used up, and the crawl ends
+                pages['/robots.txt'] = Page(raw=b'' if r.get('how', 'close') == 'close' else b'\x00\x01garbage\r\n\r\n', close=True)
             elif r['kind'] == 'redirect':
                 moved = (b'<html><head><title>301 Moved Permanently</title></head><body><h1>Moved Permanently</h1>'
                          b'<p>The document has moved <a href="/r2.txt">here</a>.</p>' + b'<!-- pad -->' * 40 + b'</body></html>')
@@ -285,7 +289,7 @@ def gen_rsite(rng, big=None):
     hosts = ['a.test'] + (['a.test:81'] if rng.random() < 0.5 else []) + (['a.test#443'] if rng.random() < 0.35 else [])
     names = ['/', '/a', '/b', '/private/x', '/private/y', '/pub/z', '/p.png', '/nf', '/only-nf', '/s?q=1', '/s?q=2', '/s', '/t;v=1']
     for h in hosts:
-        kind = rng.choice(['ok', 'ok', 'ok', 'missing', 'error', 'redirect', 'redirect', 'forbidden', 'dropped-once'])
+        kind = rng.choice(['ok', 'ok', 'ok', 'missing', 'error', 'redirect', 'redirect', 'forbidden', 'dropped-once', 'dropped-always'])
         text = ''
         if kind in ('ok', 'redirect', 'dropped-once'):
             groups = []
@@ -325,8 +329,11 @@ def gen_rsite(rng, big=None):
         if kind == 'redirect' and others and rng.random() < 0.5:
             s.origins[h]['robots']['via'] = rng.choice(others)
     m = rng.choice([None, None, 1, 2, 3])        # --max-redirect: a robots.txt behind more hops than that counts as missing
+    t = rng.choice([2, 2, 3, 7, 8])              # --tries: more failures than a host has connections (6) must not hang
     for o in s.origins.values():
         o['robots']['max_redirect'] = m
+        o['robots']['tries'] = t
+        o['robots']['how'] = rng.choice(['close', 'garbage'])
     return s
 
 
@@ -409,7 +416,7 @@ def run_one(args):
     rt.RobotsTxtPool.load_robots_txt = load_robots_txt
     pw.WebProcessorSession._fetch_one = fetch_one
     try:
-        extra = ['-r', '-l', '0', '--tries', '2']
+        extra = ['-r', '-l', '0', '--tries', str(next(iter(site.origins.values()))['robots'].get('tries', 2))]
         if ua:
             extra += ['--user-agent', ua]
         m = next(iter(site.origins.values()))['robots'].get('max_redirect')
@@ -503,6 +510,9 @@ def judge(ctx, r, reply, case, site):
             continue
         if rb['kind'] == 'error':
             ctx.fail('fetched-despite-5xx', 'robots', case, '%s%s requested although robots.txt answers 503' % (q['host'], q['target']))
+        elif rb['kind'] == 'dropped-always' and rb.get('how', 'close') == 'close':
+            # (bytes that are no HTTP response at all are a protocol error: the code treats the file as missing)
+            ctx.fail('fetched-without-robots', 'robots', case, '%s%s requested although robots.txt of the origin was never obtained (every fetch failed)' % (q['host'], q['target']))
         elif rb['kind'] in ('ok', 'redirect', 'dropped-once') and not ref_allowed(effective_rules(rb), q['ua'], q['target']):
             via_redirect = any(p['kind'] == 'redirect' and p['location'] == q['target'] for p in o['pages'].values())
             big = len(rb['text']) > 4096
